@@ -69,6 +69,7 @@ type c20Case struct {
 	// AfterPoison k>0: first a delivery whose decoding fails (c10Poisons[k-1]) is made in the same
 	// process, then this message is pre-decoded and validated
 	AfterPoison int `json:"after_failed_delivery,omitempty"`
+	preFirst    bool
 }
 
 func c20Apply(shape string, s string) string {
@@ -252,13 +253,22 @@ type c20Fields struct{ ID, InResponseTo, Destination, Version, Issuer string }
 
 func c20Exec(c c20Case) (keys []string, detail, class string) {
 	if c.AfterPoison > 0 {
-		c10SeqPoison(c.AfterPoison - 1)
+		// both orders of the two decoders right after the failed delivery
+		p := c.AfterPoison - 1
 		c.AfterPoison = 0
-		keys, detail, class = c20Exec(c)
-		for i := range keys {
-			keys[i] = strings.Replace(keys[i], "C20/", "C20/after-a-failed-delivery/", 1)
+		for _, preFirst := range []bool{true, false} {
+			c10SeqPoison(p)
+			c.preFirst = preFirst
+			k, d, cl := c20Exec(c)
+			for _, x := range k {
+				keys = append(keys, strings.Replace(x, "C20/", "C20/after-a-failed-delivery/", 1))
+			}
+			detail, class = d, cl
+			if len(keys) > 0 {
+				break
+			}
 		}
-		return keys, detail, class
+		return dedupe(keys), detail, class
 	}
 	var enc string
 	switch {
@@ -310,32 +320,49 @@ func c20Exec(c c20Case) (keys []string, detail, class string) {
 		}
 		return i.Value
 	}
+	var callFull, callPre func()
 	if c.Kind == "Response" {
-		resp, r := validateResponse(conf.Build(), enc)
-		rf = r
-		if r.Accepted() {
-			full = c20Fields{resp.ID, resp.InResponseTo, resp.Destination, resp.Version, iss(resp.Issuer)}
+		callFull = func() {
+			resp, r := validateResponse(conf.Build(), enc)
+			rf = r
+			if r.Accepted() {
+				full = c20Fields{resp.ID, resp.InResponseTo, resp.Destination, resp.Version, iss(resp.Issuer)}
+			}
 		}
-		var u *types.UnverifiedBaseResponse
-		var err error
-		p := guard(func() { u, err = saml2.DecodeUnverifiedBaseResponse(enc) })
-		rp = callResult{Panic: p, Err: describeErr(err), NilRes: u == nil}
-		if rp.Accepted() {
-			pre = c20Fields{u.ID, u.InResponseTo, u.Destination, u.Version, iss(u.Issuer)}
+		callPre = func() {
+			var u *types.UnverifiedBaseResponse
+			var err error
+			p := guard(func() { u, err = saml2.DecodeUnverifiedBaseResponse(enc) })
+			rp = callResult{Panic: p, Err: describeErr(err), NilRes: u == nil}
+			if rp.Accepted() {
+				pre = c20Fields{u.ID, u.InResponseTo, u.Destination, u.Version, iss(u.Issuer)}
+			}
 		}
 	} else {
-		resp, r := validateLogoutResponse(conf.Build(), enc)
-		rf = r
-		if r.Accepted() {
-			full = c20Fields{resp.ID, resp.InResponseTo, resp.Destination, resp.Version, iss(resp.Issuer)}
+		callFull = func() {
+			resp, r := validateLogoutResponse(conf.Build(), enc)
+			rf = r
+			if r.Accepted() {
+				full = c20Fields{resp.ID, resp.InResponseTo, resp.Destination, resp.Version, iss(resp.Issuer)}
+			}
 		}
-		var u *types.LogoutResponse
-		var err error
-		p := guard(func() { u, err = saml2.DecodeUnverifiedLogoutResponse(enc) })
-		rp = callResult{Panic: p, Err: describeErr(err), NilRes: u == nil}
-		if rp.Accepted() {
-			pre = c20Fields{u.ID, u.InResponseTo, u.Destination, u.Version, iss(u.Issuer)}
+		callPre = func() {
+			var u *types.LogoutResponse
+			var err error
+			p := guard(func() { u, err = saml2.DecodeUnverifiedLogoutResponse(enc) })
+			rp = callResult{Panic: p, Err: describeErr(err), NilRes: u == nil}
+			if rp.Accepted() {
+				pre = c20Fields{u.ID, u.InResponseTo, u.Destination, u.Version, iss(u.Issuer)}
+			}
 		}
+	}
+	if c.preFirst {
+		// (multi-IdP deployments pre-decode first, then validate)
+		callPre()
+		callFull()
+	} else {
+		callFull()
+		callPre()
 	}
 	names := []string{}
 	for _, sh := range c.Shapes {
